@@ -83,3 +83,12 @@ def int_entry_ok(body, ty, value_term):
     if not ok:
         why = f"Number::from calls: {[(x[0], fmt_terms(x[1])) for x in nf]}; casts: {[(c[0], c[1], c[2]) for c in cs]}"
     return ok, why
+
+
+def f64_mapping_ok(terms, arg):
+    """Number(from_f64(arg)) when that is Some (finite), Null otherwise — whatever the spelling (map_or, match, if let)."""
+    from .tmatch import Agg, Call, Each, m
+    num = Agg(VAR + "::Number", Each(Call("serde_json::Number::from_f64", Each(arg))))
+    nul = Agg(VAR + "::Null")
+    terms = set(terms)
+    return bool(terms) and all(m(t, num) or m(t, nul) for t in terms) and any(m(t, num) for t in terms) and any(m(t, nul) for t in terms)
